@@ -122,6 +122,21 @@ class CFG:
             if st.finalbody:
                 outs = self._block(st.finalbody, outs, loop, loops)
             return outs
+        if isinstance(st, ast.Match):
+            # a multi-way branch: each case body is reachable from the subject; falling through all cases is possible unless the
+            # last case is irrefutable (a bare capture / wildcard without a guard)
+            n = self.new(st, "match")
+            self.loop_of[n] = loop[0] if loop else None
+            self._connect(preds, n)
+            outs = []
+            irrefutable = False
+            for k, case in enumerate(st.cases):
+                outs += self._block(case.body, [(n, "case%d" % k)], loop, loops)
+                if case.guard is None and isinstance(case.pattern, ast.MatchAs) and case.pattern.pattern is None:
+                    irrefutable = True
+            if not irrefutable:
+                outs.append((n, "nomatch"))
+            return outs
         if isinstance(st, (ast.FunctionDef, ast.ClassDef, ast.Import, ast.ImportFrom, ast.Global, ast.Nonlocal)):
             n = self.new(st, "stmt")
             self.loop_of[n] = loop[0] if loop else None
